@@ -248,7 +248,10 @@ def gen_http_history(rng, tier):
     n = rng.randint(3, 6) if tier != "thorough" else rng.randint(8, 16)
     # always: a version, a large snapshot (several pages, its own write takes a while), a version —
     # whatever the handler does around the library call for big bodies is then inside the trace
-    reqs = ["http@0 POST av hyph=latest:1 hyph=1 history b:7",
+    # the first upload of a client the server has never seen names nil or (a replica that synced
+    # elsewhere before) some other parent; the handler creates the client around the library call
+    first = rng.choice(["latest:1", "$1", "$1"])
+    reqs = [f"http@0 POST av hyph={first} hyph=1 history b:7",
             f"http@0 POST as hyph=latest:1 hyph=1 snapshot r:{rng.choice([70000, 200000, 300000])}",
             "http@0 POST av hyph=latest:1 hyph=1 history r:5000"]
     for i in range(1, n):
@@ -258,6 +261,8 @@ def gen_http_history(rng, tier):
             reqs.append(f"http@0 POST av hyph=latest:1 hyph=1 history {body}")
         else:
             reqs.append(f"http@0 POST as hyph=latest:1 hyph=1 snapshot {body}")
+    # a second client appears in the middle of the history, its first upload on a non-nil parent
+    reqs.insert(rng.randint(1, len(reqs)), f"http@0 POST av hyph={rng.choice(['$2', '$2', 'nil'])} hyph=2 history b:3,3")
     return reqs
 
 
